@@ -300,7 +300,7 @@ def _register_c10():
         finally:
             del e.hyps[len(e.hyps) - len(hyps):]
     Contract("exponax.nonlin_fun._leray.Leray.__call__", key="exponax.nonlin_fun._leray.Leray.__call__#C10", props=P, inline_all=True, spec=None,
-             invoke=leray_invoke, post=leray_post, cases=[leray_build(D) for D in DIMS])
+             invoke=leray_invoke, post=leray_post, native_post=_native_leray, cases=[leray_build(D) for D in DIMS])
 
     # ---- make_incompressible: the physical-space routine is irfftn o (Leray projection of any extent) o rfftn
     def mi_build(D):
@@ -317,7 +317,7 @@ def _register_c10():
             via = ex.ifft(Leray(D, N, derivative_operator=dop)(ex.fft(field, num_spatial_dims=D)), num_spatial_dims=D, num_points=N)
         compare(e, "C10 (direct): make_incompressible(u) is irfftn(Leray_L(rfftn(u))) for every domain extent L (the two routines agree)", res, via)
     Contract("exponax._spectral.make_incompressible", key="exponax._spectral.make_incompressible#C10", props=P, inline_all=True, spec=None,
-             post=mi_post, cases=[mi_build(D) for D in DIMS])
+             post=mi_post, native_post=_native_make_incompressible, cases=[mi_build(D) for D in DIMS])
 
     # ---- the 3D rotational convection term is divergence-free for every input
     def pc_build(frac):
@@ -344,7 +344,7 @@ def _register_c10():
         finally:
             del e.hyps[len(e.hyps) - len(hyps):]
     Contract("exponax.nonlin_fun._projected_convection.ProjectedConvection3d.__call__", key="exponax.nonlin_fun._projected_convection.ProjectedConvection3d.__call__#C10",
-             props=P, inline_all=True, spec=None, invoke=pc_invoke, post=pc_post, cases=[pc_build(f) for f in ("default", "symbolic")])
+             props=P, inline_all=True, spec=None, invoke=pc_invoke, post=pc_post, native_post=_native_div_free_term, cases=[pc_build(f) for f in ("default", "symbolic")])
 
     # ---- every ETDRK order keeps a divergence-free mode divergence-free: per-mode coefficients (channel extent 1, any
     #      values) and a nonlinear term whose result is divergence-free (the real ProjectedConvection3d)
@@ -356,10 +356,14 @@ def _register_c10():
 
     def et_invoke(order, L, N):
         dop = ex.spectral.build_derivative_operator(3, L, N)
-        # a nonlinear term that ends in the (real) Leray projection of an ARBITRARY field -- what the clause above proves the
-        # projected convection term to be; the arbitrary field stands for the curl / cross-product part
-        proj, inner = Leray(3, N, derivative_operator=dop), sym.AbstractOp("X")
-        nl = lambda v: proj(inner(v))  # noqa: E731
+        # a nonlinear term with zero spectral divergence for every input -- what the clauses above prove the projected
+        # convection term to be.  Here: the cross product of the derivative operator with an ARBITRARY field X(v)
+        # (dop . (dop x X) = 0 identically), so the obligation below is about the stage formulas alone.
+        inner = sym.AbstractOp("X")
+
+        def nl(v):
+            x = inner(v)
+            return values.stack([dop[1] * x[2] - dop[2] * x[1], dop[2] * x[0] - dop[0] * x[2], dop[0] * x[1] - dop[1] * x[0]], 0)
         e = _cur()
         shape = (1,) + wsh(3, N)
         f = {"dt": sym.real(e, "dt"), "_exp_term": sym.array(e, "E", shape, "complex"), "_nonlinear_fun": nl}
@@ -427,6 +431,51 @@ def _register_c10():
 def _cur():
     from symjnp import engine
     return engine.cur()
+
+
+# native forms (real jax, float64) of the C10 post-conditions: used by replays and by the bounded conformance sweep
+def _rand_hat(shape, seed=0):
+    import numpy as np
+    r = np.random.default_rng(seed)
+    return r.normal(size=shape) + 1j * r.normal(size=shape)
+
+
+def _native_leray(res, D, L, N):
+    import numpy as np
+    proj, dop = res
+    dop = np.asarray(dop)
+    uh = _rand_hat(dop.shape)
+    out, fails = np.asarray(proj(uh)), []
+    div = (dop * out).sum(axis=0)
+    scale = 1 + np.abs(dop).max() * np.abs(uh).max()
+    if np.abs(div).max() > 1e-9 * scale:
+        fails.append(f"max |spectral divergence of the projection| = {np.abs(div).max()!r}")
+    if np.abs(np.asarray(proj(out)) - out).max() > 1e-9 * (1 + np.abs(out).max()):
+        fails.append("the projection is not idempotent")
+    return fails
+
+
+def _native_make_incompressible(res, field, indexing="ij"):
+    import numpy as np
+    from exponax.nonlin_fun import Leray
+    D, N = field.shape[0], field.shape[1]
+    fails = []
+    for L in (1.0, 3.0):
+        dop = ex.spectral.build_derivative_operator(D, L, N)
+        via = ex.ifft(Leray(D, N, derivative_operator=dop)(ex.fft(field, num_spatial_dims=D)), num_spatial_dims=D, num_points=N)
+        if np.abs(np.asarray(res) - np.asarray(via)).max() > 1e-9 * (1 + np.abs(np.asarray(via)).max()):
+            fails.append(f"make_incompressible(u) differs from irfftn(Leray_L(rfftn u)) for L = {L}")
+    return fails
+
+
+def _native_div_free_term(res, L, N, **kw):
+    import numpy as np
+    nl, dop = res
+    dop = np.asarray(dop)
+    uh = np.fft.rfftn(np.random.default_rng(0).normal(size=(3, int(N), int(N), int(N))), axes=(1, 2, 3))
+    out = np.asarray(nl(uh))
+    div = (dop * out).sum(axis=0)
+    return [f"max |spectral divergence of the convection term| = {np.abs(div).max()!r}"] if np.abs(div).max() > 1e-7 * (1 + np.abs(out).max() * np.abs(dop).max()) else []
 
 
 _register_c10()
